@@ -254,6 +254,25 @@ impl<'a> AnfCk<'a> {
                 }
                 ty.clone()
             }
+            // a closure as a function value: its function is apply(env, params..) -> result
+            CExpr::EClosureFn { closure, ty } => {
+                let ct = self.imm(closure, env);
+                match (&ct, ty) {
+                    (Ty::TStruct { name }, Ty::TFunc { params, ret_ty }) if name.starts_with("closure_env_") => {
+                        let apply = compiler::names::inherent_method_fn_name(&ct, "apply");
+                        match self.globals.get(&apply) {
+                            Some(Ty::TFunc { params: ap, ret_ty: ar }) => {
+                                if ap.len() != params.len() + 1 || !ty_eq(&ap[0], &ct) || !ap[1..].iter().zip(params.iter()).all(|(a, b)| ty_eq(a, b)) || !ty_eq(ar, ret_ty) {
+                                    self.err(format!("closure {} whose function has type {:?} used as a function value of type {:?}", name, self.globals.get(&apply), ty));
+                                }
+                            }
+                            _ => self.err(format!("closure {} used as a function value has no function {}", name, apply)),
+                        }
+                    }
+                    _ => self.err(format!("a value of type {:?} used as a function value of type {:?}", ct, ty)),
+                }
+                ty.clone()
+            }
         }
     }
     fn aexpr(&mut self, e: &AExpr, env: &mut Vec<(String, Ty)>) -> Ty {
